@@ -1,7 +1,210 @@
 import ScVerif.Base.Line
-/-! Driver handler for C12 (stub: replaced by the property's owner). -/
-namespace ScVerif.C12
+import ScVerif.C12.Registry
+import ScVerif.C12.Conc
+import ScVerif.C12.Forward
+import ScVerif.C12.NameDefault
+/-!
+Driver handler for C12: parses one request line, runs the model, prints the canonical answer.
 
-def handle (_toks : List String) : String := "!bad-op"
+Tokens never contain spaces.  `~` is the empty string, `-` is "absent"/empty list.
+
+```
+reg   <fb> <fac> <ops>                                   registry history
+route <fb> <fac> <ops> <name> <method> <req> U <childout>           history, then a unary call
+route <fb> <fac> <ops> <name> <method> <req> S <childscript> <callerscript>   … a server-stream call
+conc  <fb> <fac> <reg0> <names> <sched>                  concurrent Gets, fine-grained schedule
+name  <default> <fields>                                 replaceEmptyNameField
+```
+Factory kinds (shared with the Go harness): `none new err nil both pfx odd`; the fallback makes
+clients `2000+k`, the factory `1000+k` (k = number of earlier calls).
+-/
+namespace ScVerif.C12
+open ScVerif.Line
+
+def unTilde (s : String) : String := if s = "~" then "" else s
+def tilde (s : String) : String := if s = "" then "~" else s
+
+def splitList (s : String) (sep : String) : List String :=
+  if s = "-" || s = "" then [] else s.splitOn sep
+
+/-- The closed family of factories shared with the harness. -/
+def factoryOf (base : Nat) (kind : String) : Option (Option Factory) :=
+  match kind with
+  | "none" => some none
+  | "new" => some (some fun _ k => ⟨some (base + k), false⟩)
+  | "err" => some (some fun _ _ => ⟨none, true⟩)
+  | "nil" => some (some fun _ _ => ⟨none, false⟩)
+  | "both" => some (some fun _ k => ⟨some (base + k), true⟩)
+  | "pfx" => some (some fun n k => if n.startsWith "a" then ⟨some (base + k), false⟩ else ⟨none, false⟩)
+  | "odd" => some (some fun _ k => if k % 2 = 1 then ⟨some (base + k), false⟩ else ⟨none, true⟩)
+  | _ => none
+
+def cfgOf (fb fac : String) : Option Cfg := do
+  let a ← factoryOf 2000 fb
+  let b ← factoryOf 1000 fac
+  pure ⟨a, b⟩
+
+def parseOp? (s : String) : Option Op :=
+  match s.splitOn ":" with
+  | ["a", n, c] => do let k ← parseNat? c; pure (.add (unTilde n) k)
+  | ["r", n] => some (.remove (unTilde n))
+  | ["h", n] => some (.has (unTilde n))
+  | ["g", n] => some (.get (unTilde n))
+  | _ => none
+
+def parseOps? (s : String) : Option (List Op) := (splitList s ",").mapM parseOp?
+
+def showOptNat : Option Nat → String
+  | none => "-"
+  | some n => toString n
+
+def showRes : Res → String
+  | .prev c => "p" ++ showOptNat c
+  | .bool b => if b then "bT" else "bF"
+  | .got c _ => "g" ++ toString c
+  | .notFound => "nf"
+
+def showChange (c : Change) : String :=
+  tilde c.name ++ ":" ++ showOptNat c.old ++ ":" ++ showOptNat c.new ++ ":" ++ (if c.auto then "A" else "M")
+
+def commaList (xs : List String) : String := if xs.isEmpty then "-" else ",".intercalate xs
+
+def insertSorted (p : String × Nat) : List (String × Nat) → List (String × Nat)
+  | [] => [p]
+  | q :: qs => if p.1 < q.1 then p :: q :: qs else q :: insertSorted p qs
+
+def sortReg (r : List (String × Nat)) : List (String × Nat) := r.foldr insertSorted []
+
+def showReg (r : Reg) : String :=
+  commaList ((sortReg r).map fun p => tilde p.1 ++ ":" ++ toString p.2)
+
+def showSt (s : St) : String :=
+  "log=" ++ commaList (s.log.map showChange) ++ " reg=" ++ showReg s.reg ++
+    " nfb=" ++ toString s.nfb ++ " nfac=" ++ toString s.nfac
+
+def parseErr? (s : String) : Option Err :=
+  if s = "eof" then some .eof
+  else if s.startsWith "e" then (parseNat? (s.drop 1).toString).map .status else none
+
+def parseOptTok? (s : String) : Option (Option Tok) :=
+  if s = "-" then some none else (parseNat? s).map some
+
+def parseUOut? (s : String) : Option UOut :=
+  if s.startsWith "m" then (parseNat? (s.drop 1).toString).map .resp
+  else if s.startsWith "e" then (parseNat? (s.drop 1).toString).map .err
+  else none
+
+def showUOut : UOut → String
+  | .resp m => "m" ++ toString m
+  | .err e => "e" ++ toString e
+
+/-- `open:hdrErr:hdr:msgs:final:trailer`, msgs separated by `.` -/
+def parseChild? (s : String) : Option ChildScript :=
+  match s.splitOn ":" with
+  | [o, he, h, ms, f, t] => do
+    let o ← parseOptTok? o
+    let he ← parseOptTok? he
+    let h ← parseOptTok? h
+    let ms ← (splitList ms ".").mapM parseNat?
+    let f ← parseErr? f
+    let t ← parseOptTok? t
+    pure ⟨o, he, h, ms, f, t⟩
+  | _ => none
+
+/-- `sendHeaderErr:failAt:sendErr` -/
+def parseCaller? (s : String) : Option CallerScript :=
+  match s.splitOn ":" with
+  | [he, fa, e] => do
+    let he ← parseOptTok? he
+    let fa ← parseOptTok? fa
+    let e ← parseNat? e
+    pure ⟨he, fa, e⟩
+  | _ => none
+
+def showCalls (cs : List Call) : String :=
+  commaList (cs.map fun c => toString c.client ++ ":" ++ toString c.method ++ ":" ++ toString c.req)
+
+def showHeader : Option (Option Tok) → String
+  | none => "none"
+  | some none => "nil"
+  | some (some h) => toString h
+
+def showObs (o : Obs) : String :=
+  "calls=" ++ showCalls o.calls ++ " hdr=" ++ showHeader o.header ++
+    " sent=" ++ commaList (o.sent.map toString) ++ " sends=" ++ toString o.sends ++
+    " recvs=" ++ toString o.recvs ++ " tr=" ++ showOptNat o.trailer ++
+    " st=" ++ showOptNat o.status ++ " cancel=" ++ showBool o.cancelled
+
+def showPC : PC → String
+  | .lookup => "@lookup"
+  | .fallback => "@fallback"
+  | .factory => "@factory"
+  | .insert c => "@insert" ++ toString c
+  | .notify c => "@notify" ++ toString c
+  | .done r => showRes r
+
+def parseReg? (s : String) : Option Reg :=
+  (splitList s ",").mapM fun e =>
+    match e.splitOn ":" with
+    | [n, c] => do let k ← parseNat? c; pure (unTilde n, k)
+    | _ => none
+
+def parseField? (s : String) : Option Field :=
+  match s.splitOn ":" with
+  | [n, "S", v] => some ⟨n, true, .str (unTilde v)⟩
+  | [n, "X", v] => some ⟨n, false, .str (unTilde v)⟩      -- a string-valued field that is not singular string kind
+  | [n, "O", v] => do let k ← parseNat? v; pure ⟨n, false, .other k⟩
+  | _ => none
+
+def showField (f : Field) : String :=
+  match f.val with
+  | .str s => f.fname ++ ":" ++ (if f.isString then "S" else "X") ++ ":" ++ tilde s
+  | .other k => f.fname ++ ":O:" ++ toString k
+
+def handle? (toks : List String) : Option String :=
+  match toks with
+  | ["reg", fb, fac, ops] => do
+    let cfg ← cfgOf fb fac
+    let ops ← parseOps? ops
+    let (s, rs) := run cfg St.init ops
+    pure ("res=" ++ commaList (rs.map showRes) ++ " " ++ showSt s)
+  | ["route", fb, fac, ops, name, method, req, "U", co] => do
+    let cfg ← cfgOf fb fac
+    let ops ← parseOps? ops
+    let method ← parseNat? method
+    let req ← parseNat? req
+    let co ← parseUOut? co
+    let (s, _) := run cfg St.init ops
+    let (s', got) := get cfg s (unTilde name)
+    let (calls, out) := forwardUnary got method req (fun _ _ _ => co)
+    pure ("calls=" ++ showCalls calls ++ " out=" ++ showUOut out ++ " " ++ showSt s')
+  | ["route", fb, fac, ops, name, method, req, "S", cs, ks] => do
+    let cfg ← cfgOf fb fac
+    let ops ← parseOps? ops
+    let method ← parseNat? method
+    let req ← parseNat? req
+    let cs ← parseChild? cs
+    let ks ← parseCaller? ks
+    let (s, _) := run cfg St.init ops
+    let (s', got) := get cfg s (unTilde name)
+    pure (showObs (forwardStream got method req cs ks) ++ " " ++ showSt s')
+  | ["conc", fb, fac, reg0, names, sched] => do
+    let cfg ← cfgOf fb fac
+    let reg0 ← parseReg? reg0
+    let names := (splitList names ",").map unTilde
+    let sched ← (splitList sched ",").mapM parseNat?
+    if sched.any (· ≥ names.length) then none else
+    let c0 := Conf.start reg0 0 0 (fun t => names.getD t "")
+    let c := crun cfg c0 sched
+    pure ("th=" ++ commaList ((List.range names.length).map fun t => showPC (c.th t).pc) ++ " " ++ showSt c.st)
+  | ["name", dflt, fields] => do
+    let fs ← (splitList fields ",").mapM parseField?
+    pure (commaList ((replaceEmptyName (unTilde dflt) fs).map showField))
+  | _ => none
+
+def handle (toks : List String) : String :=
+  match handle? toks with
+  | some r => r
+  | none => "!bad-op"
 
 end ScVerif.C12
